@@ -34,6 +34,7 @@ def obsOf (tok : String) : Option Obs :=
   | ["su", "init"] => some (.alts [[.initReturns, .suSpawnInit]] never)
   | ["su", "view"] => some (.lab .firstViewReturns)
   | ["su", "reader"] => some (.lab .suOpenReader)
+  | ["reader", "respawn"] => some (.lab .exResReader)
   | ["su", "readerfail"] => some (.lab .startReaderFails)
   | ["su", "handlers"] => some (.alts [[.suSpawnHandlers], [.suOpenReader, .suSpawnHandlers]] never)
   | ["run", "tail"] => some (.lab .runTail)
@@ -76,15 +77,24 @@ def run (line : String) : String :=
     let get (k : String) : String := ((kvs.find? (·.1 == k)).map (·.2)).getD ""
     let kinds := ((get "senders").splitOn ",").filterMap kindOf
     let spare := (get "spare").toNat?.getD 0
+    let spareExec := (get "spareexec").toNat?.getD 0
     let cfg : Config := { cancelable := parseBool (get "cancelable"), withSignalHandler := false, ignoreSignals := false,
                           withResize := false, withInitCmd := parseBool (get "initcmd"), withInput := parseBool (get "input"),
-                          senders := kinds ++ List.replicate spare .user, waiters := 0 }
+                          senders := kinds ++ List.replicate spare .user ++ List.replicate spareExec .exec, waiters := 0 }
     let toks := words toksS
     match toks.mapM obsOf with
     | none => "bad-op"
     | some obs =>
-      -- the Send calls of the spare senders are hidden as well
-      let hid := hiddenLabels cfg.senders.length ++ (List.range spare).map (fun j => Label.sendCall (kinds.length + j))
+      -- hidden as well: the Send calls of the spare senders (messages produced by command goroutines the
+      -- harness does not see), the steps of an Exec (no trace points there, except the re-spawn of the read
+      -- loop when there is input), and the callers an Exec appends (two per Exec)
+      let n := cfg.senders.length
+      let execHidden : List Label :=
+        if spareExec = 0 then [] else
+        [.exRelCancel, .exRelWaitRead, .exRelWaitTimeout, .exRelRenderer, .exRelRestore, .exResRenderer, .exResSpawn,
+         .execCmdReturns, .execCmdPanics] ++ (if cfg.withInput then [] else [.exResReader]) ++
+        (List.range (2 * spareExec)).flatMap (fun j => [Label.elRecvSender (n + j), Label.sendAbort (n + j)])
+      let hid := hiddenLabels n ++ (List.range (spare + spareExec)).map (fun j => Label.sendCall (kinds.length + j)) ++ execHidden
       match firstRejectedWith hid cfg obs with
       | none => "accepted"
       | some (i, n) => s!"rejected@{i}:{toks.getD i ""} after {n} compatible states"
